@@ -383,7 +383,7 @@ pub fn generate(seed: u64, thorough: bool) -> Vec<String> {
             ));
         }
         for ti in 0..ntext {
-            // U+10FFFF (finding F19) only in a dedicated tenth of the grammars' last text
+            // U+10FFFF (finding F21) only in a dedicated tenth of the grammars' last text
             let allow_max = gi % 10 == 0 && ti == ntext - 1;
             let text = gen_text(&mut rng, &terms, &comments, allow_max);
             let k = 1 + (ti % 4);
